@@ -350,7 +350,7 @@ def gen_history(seed, tier, classes=None, weights=None, n_ops=(6, 16),
     elif k == "ambient":
       ops.append(dict(op="ambient", seed=r.randrange(10**6), draws=r.randint(0, 5)))
     elif k == "eigsh":
-      ops.append(dict(op="eigsh", mode=r.choice(["seeded", "seeded", "fail"]),
+      ops.append(dict(op="eigsh", mode=r.choice(["seeded", "seeded", "fail", "fail2"]),
                       seed=r.randrange(10**6)))
     elif k == "swap_pre":
       # replace the preprocessor (array / list / store over another dataset, or
